@@ -3984,10 +3984,21 @@ class _ExtMixin:
                     else:
                         o.items.append(("rep", it[1], self.call_value(a[0], [it[2]], {}, n), it[3]))
                 return res
+            if items is not None and isinstance(self.simp(a[0]), (FuncV,)) or (isinstance(self.simp(a[0]), Op) and self.simp(a[0]).op in ("lambda", "partial", "bound")):
+                # a tracked list with spliced / sorted parts: the generator expression map() abbreviates, as a loop over it
+                return self.synth_comp(a[0], a[1], n, False)
         return None
 
     def x_sum(self, a, k, n):
         items = self.seq_items(a[0], n)
+        from .terms import _boolish
+        if items is not None and items and all(it[0] == "rep" and (_boolish(self.simp(it[2])) or isinstance(self.simp(it[2]), Const) and
+                                                                   isinstance(self.simp(it[2]).v, bool)) for it in items):
+            # sum(<truth value per element>): the number of elements for which it holds
+            total = a[1] if len(a) > 1 else k.get("start", Const(0))
+            for it in items:
+                total = add(total, Op("count", Const(it[1].lid), and_(it[3], self.truth(it[2]))))
+            return total
         if items is None or any(it[0] != "v" or (isinstance(it[1], Op) and it[1].op == "splat") for it in items):
             return Op("call:sum", *a)
         total = a[1] if len(a) > 1 else k.get("start", Const(0))
@@ -4352,8 +4363,23 @@ Interpreter.do_yield = _do_yield
 _orig_st_For = _LoopMixin.st_For
 
 
+def _iter_protocol(self, it, node, depth=0):
+    """what a for statement iterates: an object with __iter__ hands over what that returns; iter(x) of a plain iterable is x"""
+    it = self.simp(it)
+    if depth < 3 and isinstance(it, Ref):
+        o = self.heap.get(it.oid)
+        if isinstance(o, Instance) and not isinstance(o, IterObj) and getattr(o, "cls", None) is not None and \
+                isinstance(self.class_attr(o.cls, "__iter__"), FuncV):
+            r = self.call_value(FuncV(self.class_attr(o.cls, "__iter__").info, it), [], {}, node)
+            return _iter_protocol(self, self.drain(r), node, depth + 1)
+    if depth < 3 and isinstance(it, Op) and it.op == "call:iter" and len(it.args) == 1:
+        return _iter_protocol(self, it.args[0], node, depth + 1)
+    return it
+
+
 def _st_For_gen(self, st):
     it = self.simp(self.drain(self.ev(st.iter)))
+    it = _iter_protocol(self, it, st)
     if isinstance(it, Op) and it.op in ("call:itertools.takewhile", "call:itertools.starmap") and len(it.args) == 2 and not st.orelse:
         # for x in takewhile(pred, xs): body   is   for x in xs: if not pred(x): break; body
         # for r in starmap(f, xs): body        is   for <a> in xs: r = f(*<a>); body
